@@ -174,7 +174,7 @@ func runC10(c *core.Ctx) error {
 			default:
 				continue
 			}
-			key := fmt.Sprintf("sort:%s:%s", fnKeyFull(fn), name)
+			key := fmt.Sprintf("sort:%s:%s:by=%s", fnKeyFull(fn), name, comparatorFields(prog, call.Common()))
 			if why, ok := exc[key]; ok {
 				r4.Justified++
 				r4.Pass(fmt.Sprintf("%s at %s: %s", key, c.Pos(call.Pos()), why))
@@ -324,6 +324,43 @@ func classifyMapRange(c *core.Ctx, an *effects.Analysis, fn *ssa.Function, rg *s
 		return clsOuter, v
 	}
 
+	sortedLaterAddr := func(addr ssa.Value) bool {
+		for _, b := range fn.Blocks {
+			if inBody(b) {
+				continue
+			}
+			for _, in := range b.Instrs {
+				call, ok := in.(ssa.CallInstruction)
+				if !ok || !sortFuncs[core.CalleeName(call.Common())] {
+					continue
+				}
+				for _, a := range call.Common().Args {
+					x := a
+					for i := 0; i < 6; i++ {
+						switch y := x.(type) {
+						case *ssa.Slice:
+							x = y.X
+							continue
+						case *ssa.MakeInterface:
+							x = y.X
+							continue
+						case *ssa.ChangeType:
+							x = y.X
+							continue
+						case *ssa.Convert:
+							x = y.X
+							continue
+						}
+						break
+					}
+					if ld, ok := x.(*ssa.UnOp); ok && ld.Op == token.MUL && sameAddr(ld.X, addr) {
+						return true
+					}
+				}
+			}
+		}
+		return false
+	}
 	sortedLater := func(al ssa.Value) bool {
 		// a sort call outside the body whose argument is (a slice of) a load of al
 		for _, b := range fn.Blocks {
@@ -385,6 +422,18 @@ func classifyMapRange(c *core.Ctx, an *effects.Analysis, fn *ssa.Function, rg *s
 				// outer variable / outer object field
 				al, isAlloc := root.(*ssa.Alloc)
 				val := x.Val
+				// diagnostics: an error value stored into an error-typed variable (which error is reported
+				// first is not generation output)
+				if isAlloc && x.Addr == ssa.Value(al) && core.IsErrorType(al.Type().(*types.Pointer).Elem()) {
+					continue
+				}
+				// `return a, b` in a function with named results and a defer is spilled into stores to the result
+				// variables followed by a jump to the exit block: treat it as the return it is
+				if isAlloc && x.Addr == ssa.Value(al) && isSpilledReturnBlock(x.Block(), fn) {
+					if spilledReturnIsDiagnostic(x.Block(), fn) || isConstLike(val) {
+						continue
+					}
+				}
 				switch {
 				case isConstLike(val):
 					continue // idempotent flag / constant
@@ -392,6 +441,9 @@ func classifyMapRange(c *core.Ctx, an *effects.Analysis, fn *ssa.Function, rg *s
 					continue
 				case isAppendTo(val, x.Addr):
 					if isAlloc && sortedLater(al) {
+						continue
+					}
+					if sortedLaterAddr(x.Addr) {
 						continue
 					}
 					// a field of an outer object (x.items = append(x.items, …)): needs a later sort we cannot see
@@ -564,22 +616,59 @@ func checkTemplatesOnlyRead(c *core.Ctx, r *core.Rule, prog *core.Prog, an *effe
 		r.Undecided("load:templates", "-", err.Error())
 		return
 	}
-	names := map[string]bool{}
+	// names[id] = set of argument counts the selector is invoked with. text/template calls a method only
+	// with exactly the arguments written after it (plus the piped value), so a method whose parameter count
+	// is never written cannot be invoked by any template (it would be an execution error, which the
+	// generator's own tests would hit).
+	names := map[string]map[int]bool{}
 	funcs := map[string]bool{}
+	note := func(ids []string, lastArgs []int) {
+		for i, id := range ids {
+			if names[id] == nil {
+				names[id] = map[int]bool{}
+			}
+			if i == len(ids)-1 {
+				for _, a := range lastArgs {
+					names[id][a] = true
+				}
+			} else {
+				names[id][0] = true
+			}
+		}
+	}
+	idsOf := func(n parse.Node) []string {
+		switch x := n.(type) {
+		case *parse.FieldNode:
+			return x.Ident
+		case *parse.ChainNode:
+			return x.Field
+		case *parse.VariableNode:
+			return x.Ident[1:]
+		}
+		return nil
+	}
 	for _, tr := range ts.Trees {
+		head := map[parse.Node]bool{}
 		tmpl.Walk(tr.Root, func(n parse.Node) bool {
 			switch x := n.(type) {
-			case *parse.FieldNode:
-				for _, id := range x.Ident {
-					names[id] = true
+			case *parse.PipeNode:
+				for ci, cmd := range x.Cmds {
+					if len(cmd.Args) == 0 {
+						continue
+					}
+					if ids := idsOf(cmd.Args[0]); len(ids) > 0 {
+						head[cmd.Args[0]] = true
+						k := len(cmd.Args) - 1
+						if ci > 0 {
+							note(ids, []int{k + 1})
+						} else {
+							note(ids, []int{k})
+						}
+					}
 				}
-			case *parse.ChainNode:
-				for _, id := range x.Field {
-					names[id] = true
-				}
-			case *parse.VariableNode:
-				for _, id := range x.Ident[1:] {
-					names[id] = true
+			case *parse.FieldNode, *parse.ChainNode, *parse.VariableNode:
+				if !head[n] {
+					note(idsOf(n), []int{0})
 				}
 			case *parse.IdentifierNode:
 				funcs[x.Ident] = true
@@ -590,8 +679,13 @@ func checkTemplatesOnlyRead(c *core.Ctx, r *core.Rule, prog *core.Prog, an *effe
 	r.Note("distinct selector names in templates: %d; function identifiers: %d", len(names), len(funcs))
 	// entry methods
 	var entries []*ssa.Function
+	arity := 0
 	for f := range an.Sum {
-		if f.Parent() != nil || f.Signature.Recv() == nil || !token.IsExported(f.Name()) || !names[f.Name()] {
+		if f.Parent() != nil || f.Signature.Recv() == nil || !token.IsExported(f.Name()) || names[f.Name()] == nil {
+			continue
+		}
+		if np := f.Signature.Params().Len(); !f.Signature.Variadic() && !names[f.Name()][np] {
+			arity++
 			continue
 		}
 		p := core.FuncPkgPath(f)
@@ -627,6 +721,7 @@ func checkTemplatesOnlyRead(c *core.Ctx, r *core.Rule, prog *core.Prog, an *effe
 	} else {
 		r.Undecided("anchor:templateFunctions", "-", "gen.templateFunctions not found")
 	}
+	r.Note("methods whose name occurs in a template but never with their parameter count (not invocable): %d", arity)
 	sort.Slice(entries, func(i, j int) bool { return entries[i].String() < entries[j].String() })
 	for _, f := range entries {
 		s := an.Sum[f]
@@ -790,4 +885,130 @@ func checkBufferReset(c *core.Ctx, r *core.Rule, prog *core.Prog) {
 			}
 		}
 	}
+}
+
+// isSpilledReturnBlock: the block jumps to a block consisting of RunDefers,
+// loads of the result variables and a Return.
+func isSpilledReturnBlock(b *ssa.BasicBlock, fn *ssa.Function) bool {
+	if len(b.Succs) != 1 {
+		return false
+	}
+	e := b.Succs[0]
+	if _, ok := e.Instrs[len(e.Instrs)-1].(*ssa.Return); !ok {
+		return false
+	}
+	for _, in := range e.Instrs {
+		switch x := in.(type) {
+		case *ssa.RunDefers, *ssa.Return:
+		case *ssa.UnOp:
+			if x.Op != token.MUL {
+				return false
+			}
+		default:
+			return false
+		}
+	}
+	return true
+}
+
+// spilledReturnIsDiagnostic: the block stores a non-nil value into an
+// error-typed result variable.
+func spilledReturnIsDiagnostic(b *ssa.BasicBlock, fn *ssa.Function) bool {
+	for _, in := range b.Instrs {
+		st, ok := in.(*ssa.Store)
+		if !ok {
+			continue
+		}
+		al, ok := st.Addr.(*ssa.Alloc)
+		if !ok {
+			continue
+		}
+		if core.IsErrorType(al.Type().(*types.Pointer).Elem()) && !core.IsNilConst(st.Val) {
+			return true
+		}
+	}
+	return false
+}
+
+// comparatorFields names what a sort's comparator looks at: the fields read
+// and the methods called in the comparator closure (or the Less method of the
+// sort.Interface value). It is part of the table key, so a comparator that
+// starts comparing something else is a new, unreviewed obligation.
+func comparatorFields(prog *core.Prog, cc *ssa.CallCommon) string {
+	var cmp *ssa.Function
+	switch core.CalleeName(cc) {
+	case "sort.Sort", "sort.Stable":
+		if len(cc.Args) == 1 {
+			v := cc.Args[0]
+			if mi, ok := v.(*ssa.MakeInterface); ok {
+				v = mi.X
+			}
+			cmp = prog.SSA.LookupMethod(v.Type(), nil, "Less")
+			if cmp == nil {
+				if ms := prog.SSA.MethodSets.MethodSet(v.Type()); ms != nil {
+					for i := 0; i < ms.Len(); i++ {
+						if ms.At(i).Obj().Name() == "Less" {
+							cmp = prog.SSA.MethodValue(ms.At(i))
+						}
+					}
+				}
+			}
+		}
+	default:
+		if len(cc.Args) >= 2 {
+			switch f := cc.Args[len(cc.Args)-1].(type) {
+			case *ssa.MakeClosure:
+				cmp, _ = f.Fn.(*ssa.Function)
+			case *ssa.Function:
+				cmp = f
+			}
+		}
+	}
+	if cmp == nil {
+		return "?"
+	}
+	set := map[string]bool{}
+	seen := map[*ssa.Function]bool{}
+	var visit func(f *ssa.Function, depth int)
+	visit = func(f *ssa.Function, depth int) {
+		if f == nil || seen[f] || depth > 2 || f.Blocks == nil {
+			return
+		}
+		seen[f] = true
+		for _, b := range f.Blocks {
+			for _, in := range b.Instrs {
+				switch x := in.(type) {
+				case *ssa.FieldAddr:
+					if st, ok := x.X.Type().Underlying().(*types.Pointer).Elem().Underlying().(*types.Struct); ok {
+						set[st.Field(x.Field).Name()] = true
+					}
+				case *ssa.Field:
+					if st, ok := x.X.Type().Underlying().(*types.Struct); ok {
+						set[st.Field(x.Field).Name()] = true
+					}
+				case ssa.CallInstruction:
+					if callee := x.Common().StaticCallee(); callee != nil {
+						if core.InModule(callee) {
+							if callee.Signature.Recv() != nil {
+								set[callee.Name()+"()"] = true
+							}
+							visit(callee, depth+1)
+						}
+					} else if x.Common().IsInvoke() {
+						set[x.Common().Method.Name()+"()"] = true
+					}
+				}
+			}
+		}
+	}
+	visit(cmp, 0)
+	var out []string
+	for k := range set {
+		out = append(out, k)
+	}
+	sort.Strings(out)
+	if len(out) == 0 {
+		return "elements"
+	}
+	return strings.Join(out, ",")
 }
